@@ -2,6 +2,8 @@ package gen
 
 import (
 	"pgregory.net/rapid"
+
+	"verifharness/model"
 )
 
 // Layout describes how a list of events becomes blocks and segments.
@@ -94,4 +96,22 @@ func (l Layout) BlockRanges() [][2]int {
 		}
 	}
 	return out
+}
+
+// StaggerTimestamps re-assigns the event times block by block: every block (flush unit) of the layout gets
+// its own time window, drawn independently, so that blocks and segments overlap, nest and interleave in
+// time (a block reaching below the start of a newer segment, a segment lying inside another one, ...).
+// Ties inside and across windows are frequent on purpose.
+func StaggerTimestamps(t *rapid.T, evs []*model.Event, l Layout) {
+	for _, r := range l.BlockRanges() {
+		start := BaseTs + uint64(rapid.IntRange(0, 40).Draw(t, "winStart"))*10
+		length := uint64(rapid.SampledFrom([]int{0, 1, 5, 30, 100, 250}).Draw(t, "winLen"))
+		n := r[1] - r[0]
+		for i := r[0]; i < r[1]; i++ {
+			evs[i].Ts = start + uint64(rapid.Uint64Range(0, length).Draw(t, "winOff"))
+		}
+		if n >= 2 {
+			evs[r[0]].Ts, evs[r[1]-1].Ts = start+length, start // the window is fully used, newest event first
+		}
+	}
 }
